@@ -18,7 +18,7 @@ CLAIMS: dict[str, tuple[str, str, str, str]] = {
         'presence kind as the row demands - whose arguments, expanded through local and self '
         'definitions and enclosing tests, read every fact a detecting check needs, attached to '
         'the element that owns the fact; the check family itself must route verdicts through '
-        'check_true -> add_error; counted loops must advance by a positive step. An element\'s own checks are not switched off by state carried over a manifest refresh (R18.10). Where the expectation is an equality (decode time, sequence number, offsets, availabilityStartTime across a refresh) a detecting check is two-sided (R18.12).',
+        'check_true -> add_error; counted loops must advance by a positive step. An element\'s own checks are not switched off by state carried over a manifest refresh (R18.10). Where the expectation is an equality (decode time, sequence number, offsets, availabilityStartTime across a refresh) a detecting check is two-sided (R18.12); the decode-time comparison is bounded by the tolerance chosen where the segment was created (R18.13).',
         'Not decided: absence of false positives on server output (needs the server values), '
         'sufficiency of each comparison, termination in general.',
         'DESIGN.md section 4, C18'),
@@ -29,7 +29,7 @@ CLAIMS: dict[str, tuple[str, str, str, str]] = {
         'by interval analysis of the formatter on all paths (so rounding must carry); the parsed '
         'fractional second is not a truncated scaled float; only a zero offset is rewritten to Z '
         '(regex AST) and the parser rebuilds the offset from sign/hour/minute; the Jinja filters '
-        'are the library functions; the fraction digits keep their place value on the way to the microsecond; a time zone is attached with replace(tzinfo=..) only to a value that has none (R19.7). A static necessary condition - not the numeric round trip.',
+        'are the library functions; the fraction digits keep their place value on the way to the microsecond (no strip/pad on the left, no scaling by magnitude); a time zone is attached with replace(tzinfo=..) only to a value that has none (R19.7). A static necessary condition - not the numeric round trip.',
         'Not decided: half-millisecond accuracy of the float arithmetic itself, the tick '
         'conversions (value arithmetic). Axioms: durations are >= 0; x - floor(x) in [0,1). '
         'Trusted: CPython ast, re._parser.',
@@ -46,7 +46,7 @@ CLAIMS: dict[str, tuple[str, str, str, str]] = {
         'and getvalue() except the guarded corruption hook; every path of generate_media_segment '
         'that inserts a box (emsg before moof, tfdt or PIFF into traf) reaches the reset of '
         'tfhd.base_data_offset / the forcing of trun.data_offset before encode (boolean flag '
-        'propagation over all paths); the edit API invalidates caches and propagates sizes. Every path to encode (edited or not) resets the tfhd base read from the stored file and forces the trun data_offset field, because the fragment is re-based and trun.post_encode can add the field only by growing the encoded box (R03.7). The saio offset is decided as a linear form per path (first senc entry minus the tfhd base, or minus the moof position); a reset saio is written with one entry unless there is no senc sample (R03.8).',
+        'propagation over all paths); the edit API invalidates caches and propagates sizes. Every path to encode (edited or not) resets the tfhd base read from the stored file and forces the trun data_offset field, because the fragment is re-based and trun.post_encode can add the field only by growing the encoded box (R03.7). The saio offset is decided as a linear form per path (first senc entry minus the tfhd base, or minus the moof position); a reset saio is written with one entry unless there is no senc sample (R03.8); every path through Mp4Atom.__setattr__ that assigns a public field reaches trigger_change(), with or without a cached encoding (R03.9).',
         'Not decided: byte identity of mdat, the numerical value of an offset for a given file. '
         'Trusted: the layout idiom table of the extractor (classes it cannot model are reported '
         'by name and the analysed count has a floor).',
@@ -62,7 +62,7 @@ CLAIMS: dict[str, tuple[str, str, str, str]] = {
         'edit API must invalidate cached encodings and propagate size deltas, and encode() must '
         'back-patch sizes before the post-encode fix-ups; the box header reader/writer must agree; '
         'FieldReader.read() results must not be used as values. This is the reader/writer '
-        'agreement that byte-exact round-tripping needs, decided for all inputs. Mp4Atom._invalidate is decided per path: leaving the cache alone implies `_encoded is None`, clearing without recursing implies no parent. The expandable descriptor size is read back as written for sizes on both sides of every seven-bit boundary (R04.9: partial evaluation of writer and reader loops over constants, no repository code runs); the raw header kept for a lazily loaded box holds every byte the header parser consumed (R04.10).',
+        'agreement that byte-exact round-tripping needs, decided for all inputs. Mp4Atom._invalidate is decided per path: leaving the cache alone implies `_encoded is None`, clearing without recursing implies no parent. The expandable descriptor size is read back as written for sizes on both sides of every seven-bit boundary (R04.9: partial evaluation of writer and reader loops over constants, no repository code runs); the raw header kept for a lazily loaded box holds every byte the header parser consumed (R04.10); every peek of a payload length is on a path that implies the length positive, as BufferedReader.peek asserts (R04.11).',
         'Not decided: equality of values (floats, dates), lazy vs eager field equality, the JSON '
         'round trip as a whole, bounded edit sequences. Guard linkages accepted: presence tests on '
         'the writer side (`x is not None`, `\'x\' in _fields`) against any reader-side condition.',
@@ -145,7 +145,7 @@ CLAIMS: dict[str, tuple[str, str, str, str]] = {
         'encode nothing themselves; each DRM system may hand out a moov/cenc/pro generator only '
         'under the membership test of the same-named DrmLocation (Marlin: none); cenc and moov '
         'share one generator; the fragment is the stored segment 0 loaded read-write and the key '
-        'set comes from the representation. pssh key ids are identity conversions of the key set (R10.7); default locations replace a requested set only for None unless nothing can empty a request.',
+        'set comes from the representation. pssh key ids are identity conversions of the key set, and a pssh without key ids is built only on paths that bound the number of keys by one (R10.7); default locations replace a requested set only for None unless nothing can empty a request.',
         'Not decided: byte identity of untouched boxes (follows from C04 as far as reader/writer '
         'agreement goes), pssh payload contents. Patterns are matched on resolved names (the '
         'receiver of load_fragment, the loop variable of the DrmContext), not on line positions.',
@@ -187,7 +187,7 @@ CLAIMS: dict[str, tuple[str, str, str, str]] = {
         'unsatisfiability (start >= length or start > end) where it is 416; the Content-Range '
         'text must be built from the definitions of start/end that reach the return; both '
         'callers must map ValueError to 400, slice with an inclusive end, and nothing else may '
-        'read the Range header. Decides the status/bounds/Content-Range clauses; body equality '
+        'read the Range header. For the suffix form the start is max(0, length - N) with N the parsed suffix length written out through the locals (structural clause, path conditions decide the sign where max() is not used). Decides the status/bounds/Content-Range clauses; body equality '
         'only structurally (same variables, inclusive convention).',
         "Axioms: pieces of split('-') parse to ints >= 0 or raise ValueError; length >= 0. "
         'Trusted: CPython ast; the zone closure. Not decided: equality of the body bytes.',
